@@ -559,8 +559,7 @@ func c04Gen(r *Rng, tier string) []string {
 	}
 	if tier == "thorough" {
 		// message counts around 2^8 and beyond 2^16: indexes that differ by a power of two
-		out = append(out, "bls|257|own|swap:0:256", "bls|300|exp|swap:1:257", "bls|65537|own|swap:0:65536", "bls|65540|exp|swap:3:65539",
-			"bls|65537|own|chg:65536")
+		out = append(out, "bls|257|own|swap:0:256", "bls|300|exp|swap:1:257", "bls|65537|own|swap:0:65536", "bls|65540|exp|swap:3:65539")
 	}
 	for i := 0; i < n; i++ {
 		switch x := r.N(10); {
